@@ -4,7 +4,7 @@ import ast
 
 from .. import AnalysisError
 from ..cfg import ALL_KINDS, NORMAL_KINDS
-from ..lib import always_followed_by, attr_stores, fresh_queue_poll, hpc_queue_confined, gated_sites, guard_forms, key_of, render, type_is, ungated_chain
+from ..lib import dominated_by, always_followed_by, attr_stores, fresh_queue_poll, hpc_queue_confined, gated_sites, guard_forms, key_of, render, type_is, ungated_chain
 from ..report import describe, rule
 from .common import report_role, spawn_sites
 
@@ -131,6 +131,15 @@ def c14_2(ctx, r):
         forms = guard_forms(ctx, fn, n)
         r.check(not forms, "mark_canceled() is unconditional", key_of(fn, "mark_canceled conditional"), fn.loc(n.stmt),
                 f"mark_canceled is skipped under {sorted(f for f, _ in forms)}")
+    # ... and only after the sweep *completed*: not from a finally / handler around it (a scancel that raised leaves the later ids un-asked)
+    from ..lib import on_exception_path_of
+
+    sc_nodes = {id(s.node) for s in sc}
+    for s in ctx.sites(fn, short="Cluster.mark_canceled"):
+        t = on_exception_path_of(ctx, fn, s.node, lambda x: id(x) in sc_nodes)
+        r.check(t is None, "mark_canceled() runs only after the whole sweep succeeded", key_of(fn, "mark_canceled on the sweep's exception path"), s.loc,
+                "mark_canceled() sits in the finally / except of the try around the scancel sweep: when one scancel raises (fork failure, missing executable, interrupt) the submission is recorded as canceled "
+                "although the batches after the failing id were never asked to cancel - they keep running, and nothing will ask again", "every batch that was active is asked to be canceled")
 
 
 @rule(P, "C14.3", "T7+T2", "the canceled flag is stored, serialised under the lock, and never reset", min_obligations=4)
@@ -241,3 +250,29 @@ def c14_9(ctx, r):
     from .c03 import c03_3
 
     c03_3(ctx, r)
+
+
+@rule(P, "C14.10", "T2", "the completion step writes results.json before any step of it that can fail (teardown command, error-log scan)", min_obligations=2)
+def c14_10(ctx, r):
+    """After a cancel the completion step typically runs where the submission was not started (the login node the user typed `jade cancel-jobs`
+    on): the teardown executable may not exist there, a half-written *.e file may not decode.  results.json - the results recorded before the
+    cancel and the never-run jobs as missing - must already exist when such a step raises: write_results_summary() dominates every external
+    command and every file scan of _handle_completion."""
+    fn = ctx.fn("JobSubmitter._handle_completion", "C14.10")
+    sw = ctx.nodes_with_effect(fn, "SUMMARY_WRITE")
+    if not sw:
+        raise AnalysisError("C14.10", "no write_results_summary call in _handle_completion")
+    n = 0
+    for s in ctx.cg.sites_in(fn):
+        ext = (s.external or "")
+        risky = s.calls_short(ctx.ix, "run_command.run_command") or s.calls_short(ctx.ix, "run_command.check_run_command") or s.calls_short(ctx.ix, "JobSubmitter._log_error_log_messages") \
+            or s.calls_short(ctx.ix, "JobSubmitter.generate_reports")
+        if not risky or "submit-next-stage" in ctx.src(s.node):
+            continue
+        for nd in ctx.nodes_of(fn, s.node):
+            n += 1
+            r.check(dominated_by(ctx, fn, nd, sw, ALL_KINDS), f"results.json is written before {ctx.src(s.node.func)}()", key_of(fn, f"{ctx.src(s.node.func).split('.')[-1]} before the summary"), s.loc,
+                    f"`{ctx.src(s.node)[:70]}` can run (and fail) before write_results_summary(): if it raises - a teardown executable that exists on compute nodes only, an undecodable error log - the completion step "
+                    "ends without results.json, so neither the results recorded before the cancel nor the missing jobs are reported", "results recorded before the cancel are kept and jobs that never ran are reported as missing")
+    if n < 2:
+        raise AnalysisError("C14.10", f"{n} failing steps recognised in _handle_completion")
